@@ -202,7 +202,7 @@ impl Registry {
                         write!(output, "on {} ", name.node.on.node)?;
                         self.types.get(name.node.on.node.as_str())
                     } else {
-                        None
+                        parent_type
                     };
                     self.stringify_selection_set(
                         output,
